@@ -15,6 +15,23 @@ func init() {
 		ID: "C02", Level: "other",
 		Explain: "Decides that the send counter read that feeds the nonce and its increment form one mutex region in the method that calls cipher.AEAD.Seal, that the counter field has no other writer anywhere in the repository, that the nonce handed to Seal is produced inside that region and not modified afterwards, that the role byte and the counter bytes of the nonce are disjoint and the role byte differs between roles (send vs. receive builders mirror each other), and that the raw key never leaves the SessionKey methods. Uniqueness beyond 2^64 messages is not covered.",
 		Run:     runC02,
+		SelfTests: []SelfTest{
+			{Name: "increment outside the critical section", ExpectRule: "C02.R1", Edits: []Edit{
+				{File: "internal/crypto/crypto.go", Old: "\tnonce := s.buildSendNonce()\n\ts.sendNonce++\n\ts.mu.Unlock()\n", New: "\tnonce := s.buildSendNonce()\n\ts.mu.Unlock()\n\ts.sendNonce++\n"},
+			}},
+			{Name: "counter reset elsewhere", ExpectRule: "C02.R1", Edits: []Edit{
+				{File: "internal/crypto/crypto.go", Old: "\tZeroKey(&s.key)\n", New: "\tZeroKey(&s.key)\n\ts.sendNonce = 1\n"},
+			}},
+			{Name: "role byte set for both roles", ExpectRule: "C02.R3", Edits: []Edit{
+				{File: "internal/crypto/crypto.go", Old: "\tif !s.isInitiator {\n\t\t// Responder sends with high bit set\n\t\tnonce[0] = 0x80\n\t}", New: "\tnonce[0] = 0x80"},
+			}},
+			{Name: "role byte inside counter bytes", ExpectRule: "C02.R3", Edits: []Edit{
+				{File: "internal/crypto/crypto.go", Old: "\t\t// Responder sends with high bit set\n\t\tnonce[0] = 0x80\n", New: "\t\tnonce[4] = 0x80\n"},
+			}},
+			{Name: "rewrite: deferred unlock, seal under the lock", Edits: []Edit{
+				{File: "internal/crypto/crypto.go", Old: "\tnonce := s.buildSendNonce()\n\ts.sendNonce++\n\ts.mu.Unlock()\n", New: "\tdefer s.mu.Unlock()\n\tnonce := s.buildSendNonce()\n\ts.sendNonce++\n"},
+			}},
+		},
 	})
 }
 
